@@ -95,25 +95,26 @@ class Extractor:
         if len(pieces) != len(args) + 1 or re.search(r"[{}]", "".join(pieces)):
             raise Undecided(f"{what}: format literal {lit} with other than plain {{}} placeholders: outside rewrite R14")
         units = []
+        INTS = ("u8", "i8", "u16", "i16", "u32", "i32", "usize")
         for i, pc in enumerate(pieces):
             if i > 0:
                 a = args[i - 1]
+                cm = re.fullmatch(r"(\w+)\s+as\s+(u8|i8|u16|i16|u32|i32|u64|i64|usize|isize)", a)
+                ty = lambda v: ptypes.get(v, "").replace("&", "").strip()
                 if re.fullmatch(r"\d+", a):
-                    pass
-                elif not re.fullmatch(r"\w+", a) or a not in ptypes:
-                    raise Undecided(f"{what}: format argument `{a}` is not a parameter of the production: outside rewrite R14")
+                    unit = ("N", a)
+                elif cm and ty(cm.group(1)) in INTS:
+                    unit = ("N", f"({a})")      # an integer parameter printed through a cast: the cast value is what is rendered
+                elif re.fullmatch(r"\w+", a) and ty(a) in ("String", "str"):
+                    unit = ("P", a)
+                elif re.fullmatch(r"\w+", a) and ty(a) in INTS:
+                    unit = ("N", a)
+                else:
+                    raise Undecided(f"{what}: format argument `{a}` is not a String / integer parameter of the production (or a cast of one): outside rewrite R14")
                 prev = pieces[i - 1]
                 if (prev and re.search(r"[A-Za-z0-9_]$", prev)) or (prev == "" and i > 1) or (pc and re.match(r"[A-Za-z0-9_]", pc)):
                     raise Undecided(f"{what}: argument `{a}` touches an identifier character or another argument in {lit}: token boundaries not visible (R14)")
-                ty = "literal" if re.fullmatch(r"\d+", a) else ptypes[a].replace("&", "").strip()
-                if ty == "literal":
-                    units.append(("N", a))
-                elif ty in ("String", "str"):
-                    units.append(("P", a))
-                elif ty in ("u8", "i8", "u16", "i16", "u32", "i32", "usize"):
-                    units.append(("N", a))
-                else:
-                    raise Undecided(f"{what}: format argument `{a}` of type {ty}: outside rewrite R14")
+                units.append(unit)
             units += self.lit_units(pc)
         return units
 
